@@ -287,7 +287,7 @@ fn c16_shapes(ctx: &mut Ctx, rng: &Rng, fmt: Fmt, c: &Case, lean: bool) -> u64 {
     };
     let (int, frac, e) = (&c.int[..], &c.frac[..], c.exp);
     // (a) iterator shapes
-    let all: Vec<u64> = if lean { vec![rng.below(8)] } else { (0..8).collect() };
+    let all: Vec<u64> = if lean { vec![rng.below(10)] } else { (0..10).collect() };
     for shape in all {
         sink::reset();
         match shape {
@@ -393,6 +393,39 @@ fn c16_shapes(ctx: &mut Ctx, rng: &Rng, fmt: Fmt, c: &Case, lean: bool) -> u64 {
                     let r = util::catch(|| parse_iters(fmt, sb[off..off + int.len()].iter(), sb[64 + off2..64 + off2 + frac.len()].iter(), e));
                     check(ctx, "stack_buffer", r, Some(sink::path()));
                 }
+            }
+            8 => {
+                // chains whose size_hint has a non-zero but inexact lower bound: an exact piece (slice) chained
+                // with an inexact one (filter / take_while / flat_map), in both orders, cut inside and past digit 20
+                let cut = |b: &[u8]| -> usize {
+                    if b.is_empty() {
+                        0
+                    } else {
+                        match rng.below(4) {
+                            0 => b.len().min(20),
+                            1 => b.len().min(21 + rng.below(5) as usize),
+                            2 => rng.range(0, b.len() as i64) as usize,
+                            _ => b.len() / 2,
+                        }
+                    }
+                };
+                let (ci, cf) = (cut(int), cut(frac));
+                let (i1, i2) = int.split_at(ci);
+                let (f1, f2) = frac.split_at(cf);
+                let r = util::catch(|| parse_iters(fmt, i1.iter().filter(|_| true).chain(i2.iter()), f1.iter().chain(f2.iter().filter(|_| true)), e));
+                check(ctx, "chain_inexact_then_exact", r, Some(sink::path()));
+                sink::reset();
+                let r = util::catch(|| parse_iters(fmt, i1.iter().chain(i2.iter().take_while(|_| true)), f1.iter().take_while(|_| true).chain(f2.iter()), e));
+                check(ctx, "chain_exact_then_take_while", r, Some(sink::path()));
+            }
+            9 => {
+                // flat_map over chunks (lower bound = remaining of the current front chunk only), peekable, fuse, by_ref-free map
+                let (ci, cf) = (chunked(rng, int), chunked(rng, frac));
+                let r = util::catch(|| parse_iters(fmt, ci.iter().flat_map(|c| c.iter()), cf.iter().flat_map(|c| c.iter()), e));
+                check(ctx, "flat_map_chunks", r, Some(sink::path()));
+                sink::reset();
+                let r = util::catch(|| parse_iters(fmt, int.iter().peekable(), frac.iter().fuse().skip_while(|_| false), e));
+                check(ctx, "peekable_skip_while", r, Some(sink::path()));
             }
             _ => {
                 // (c) stack contents and call history: poison, or a long slow-path parse, right before the call
@@ -519,7 +552,7 @@ fn mode_c16(ctx: &mut Ctx, rng: &Rng, args: &Args) {
     if lean {
         ctx.rep.extra.insert("lean".into(), "true".into());
     } else {
-        for k in ["variant.chain", "variant.filter", "variant.vecdeque", "variant.rev", "variant.skip_take_step_by", "variant.custom_noncontiguous_pessimistic_size_hint", "variant.heap_offset", "variant.stack_buffer", "variant.after_other_parse", "variant.after_sibling_parse", "variant.fresh_thread", "variant.after_stack_poison_0", "variant.after_stack_poison_3", "concurrent.calls", "path.slow_neg", "path.slow_pos", "path.fast", "path.moderate"] {
+        for k in ["variant.chain", "variant.filter", "variant.vecdeque", "variant.rev", "variant.skip_take_step_by", "variant.custom_noncontiguous_pessimistic_size_hint", "variant.chain_inexact_then_exact", "variant.chain_exact_then_take_while", "variant.flat_map_chunks", "variant.peekable_skip_while", "variant.heap_offset", "variant.stack_buffer", "variant.after_other_parse", "variant.after_sibling_parse", "variant.fresh_thread", "variant.after_stack_poison_0", "variant.after_stack_poison_3", "concurrent.calls", "path.slow_neg", "path.slow_pos", "path.fast", "path.moderate"] {
             ctx.rep.require(k);
         }
     }
